@@ -228,10 +228,328 @@ def search_stream(ctx, hexe, dexe, n_cases):
     return found
 
 
+# ---------------------------------------------------------------- generators: probing hash table
+M64 = (1 << 64) - 1
+
+
+def py_hash(kind, c, k):
+    return k if kind == "id" else (k * c) & M64 if kind == "mul" else (k >> c)
+
+
+def gen_keys(rng, n_keys, N, kind, c, invalid):
+    """Distinct keys != invalid, crafted so that many share an ideal bucket, cluster at the end
+    of the table (wrap-around) or equal a neighbour's hash."""
+    keys = []
+    seen = {invalid}
+    style = rng.choice(["collide", "tail", "small", "wide", "mixed", "mixed"])
+    hot = [rng.randrange(0, N) for _ in range(3)] + [N - 1, max(0, N - 2), 0]
+    tries = 0
+    while len(keys) < n_keys and tries < 50 * n_keys + 100:
+        tries += 1
+        st = style if style != "mixed" else rng.choice(["collide", "tail", "small", "wide", "hash"])
+        if st == "collide":
+            k = rng.choice(hot[:2]) + N * rng.randrange(0, 64)
+        elif st == "tail":
+            k = rng.choice([N - 1, max(0, N - 2), max(0, N - 3)]) + N * rng.randrange(0, 1 << rng.choice([3, 8, 40]))
+        elif st == "small":
+            k = rng.randrange(0, 4 * N + 4)
+        elif st == "hash" and keys:
+            k = py_hash(kind, c, rng.choice(keys)) & M64     # a key equal to another key's hash
+        else:
+            k = rng.getrandbits(64)
+        if kind == "shr":
+            k = (k << c) & M64 | rng.getrandbits(c) if c else k
+        k &= M64
+        if k in seen:
+            continue
+        seen.add(k)
+        keys.append(k)
+    return style, keys
+
+
+def gen_probing_fixed(rng):
+    """Script on a fixed-size table.  Returns ops, oracle [(index, expected-with-positions-erased)], meta."""
+    md = rng.choice(["div", "div", "p2"])
+    if md == "div":
+        N = rng.choice([1, 2, 3, 4, 5, 6, 7, 8, 11, 13, 16, 24, 33, rng.randrange(2, 70)])
+    else:
+        N = rng.choice([1, 2, 4, 8, 16, 32, 64])
+    invalid = rng.choice([0, 0, 1, M64, rng.getrandbits(64), rng.randrange(0, 8)])
+    kind = rng.choice(["id", "id", "id", "mul", "shr"])
+    c = (rng.getrandbits(64) | 1) if kind == "mul" else rng.choice([0, 1, 2, 3, 5]) if kind == "shr" else 0
+    ops, oracle = [], []
+
+    def emit(op, want):
+        oracle.append((len(ops), want))
+        ops.append(op)
+    if md == "p2" and rng.random() < 0.3:
+        emit("pnew p2 %d %d %s %d" % (rng.choice([3, 5, 6, 12, 0, 24, 255]), invalid, kind, c), "badsize")
+    emit("pnew %s %d %d %s %d" % (md, N, invalid, kind, c), "ok")
+    plan = rng.choice(["fill", "fill", "mixed", "mixed", "double", "double", "overflow"])
+    n_keys = rng.randrange(0, 3 * N + 3)
+    style, keys = gen_keys(rng, n_keys, N, kind, c, invalid)
+    d, order = {}, []
+    count = 0
+    curN = N
+    fresh = list(keys)
+    doublings = 0
+    fulls = 0
+
+    def absent_key():
+        for _ in range(20):
+            if order and rng.random() < 0.7:
+                k = (rng.choice(order) + curN * rng.randrange(1, 5)) & M64   # shares an ideal bucket (id hash)
+            else:
+                k = rng.getrandbits(rng.choice([3, 8, 64]))
+            if k != invalid and k not in d and k not in fresh:
+                return k
+        return None
+    n_ops = rng.randrange(1, 4 * N + 8)
+    for _ in range(n_ops):
+        r = rng.random()
+        can_double = plan == "double" and curN <= 512 and doublings < 5
+        if can_double and r < 0.12:
+            emit("dbl" + rng.choice(["", " noclear"]), "ok")
+            curN *= 2
+            doublings += 1
+            continue
+        if plan == "overflow" or (plan == "fill" and r < 0.75) or r < 0.4:
+            if not fresh:
+                k = absent_key()
+                if k is None:
+                    continue
+                fresh.append(k)
+            k = fresh.pop(0)
+            v = rng.getrandbits(rng.choice([4, 64]))
+            if rng.random() < 0.6:
+                count += 1
+                if count >= curN:
+                    emit("ins %d %d" % (k, v), "full"); fulls += 1
+                else:
+                    d[k] = v; order.append(k)
+                    emit("ins %d %d" % (k, v), "ok")
+            else:
+                count += 1
+                if count >= curN:
+                    emit("foi %d %d" % (k, v), "full"); fulls += 1
+                else:
+                    d[k] = v; order.append(k)
+                    emit("foi %d %d" % (k, v), "new")
+        elif r < 0.55 and order:
+            k = rng.choice(order)
+            emit("foi %d %d" % (k, rng.getrandbits(8)), "found %d" % d[k])
+        elif r < 0.8 and order:
+            k = rng.choice(order)
+            emit("find %d" % k, "found %d" % d[k])
+        elif r < 0.93:
+            k = absent_key()
+            if k is not None:
+                emit("find %d" % k, "absent")
+        elif r < 0.97:
+            emit("size", str(count))
+        else:
+            emit("pdump", "%d %d %s" % (curN, count, " ".join("%d:%d" % kv for kv in sorted(d.items()))))
+    if plan == "double" and curN <= 512 and rng.random() < 0.7:
+        emit("dbl", "ok")
+        curN *= 2
+        doublings += 1
+    for k in order:
+        emit("find %d" % k, "found %d" % d[k])
+    for _ in range(3):
+        k = absent_key()
+        if k is not None:
+            emit("find %d" % k, "absent")
+    emit("size", str(count))
+    emit("pdump", "%d %d %s" % (curN, count, " ".join("%d:%d" % kv for kv in sorted(d.items()))))
+    meta = {"mod": md, "N": N, "plan": plan, "keys": len(d), "style": style, "hash": kind, "c": c, "doublings": doublings,
+            "fulls": fulls, "invalid0": invalid == 0}
+    return ops, oracle, meta
+
+
+def gen_probing_auto(rng):
+    init = rng.choice([0, 0, 1, 2, 3, 5, 6, 7, 10, 13, 20, 27, 100, rng.randrange(0, 300)])
+    invalid = rng.choice([0, 0, 1, M64, rng.getrandbits(64)])
+    kind = rng.choice(["id", "id", "mul", "shr"])
+    c = (rng.getrandbits(64) | 1) if kind == "mul" else rng.choice([0, 1, 2, 3]) if kind == "shr" else 0
+    ops, oracle = [], []
+
+    def emit(op, want):
+        oracle.append((len(ops), want))
+        ops.append(op)
+    emit("anew %d %d %s %d" % (init, invalid, kind, c), None)
+    n_keys = rng.choice([0, 1, 2, 3, 8, 20, 40, 100, rng.randrange(0, 400)])
+    # clusters that wrap around the end of the table at several sizes: ideals just below powers of two
+    keys, seen = [], {invalid}
+    style = rng.choice(["wraps", "wraps", "collide", "wide", "mixed"])
+    while len(keys) < n_keys:
+        st = style if style != "mixed" else rng.choice(["wraps", "collide", "wide"])
+        if st == "wraps":
+            j = rng.randrange(0, 10)
+            k = ((1 << j) - 1 - rng.randrange(0, 3)) % (1 << 64) + (rng.randrange(0, 64) << rng.choice([j, j + 1, 10]))
+        elif st == "collide":
+            k = rng.randrange(0, 4) + (rng.randrange(0, 256) << rng.choice([2, 4, 6, 9]))
+        else:
+            k = rng.getrandbits(64)
+        k &= M64
+        if k in seen:
+            continue
+        seen.add(k)
+        keys.append(k)
+    d, order = {}, []
+    for k in keys:
+        v = rng.getrandbits(rng.choice([4, 64]))
+        if rng.random() < 0.6:
+            emit("ains %d %d" % (k, v), "ok")
+        else:
+            emit("afoi %d %d" % (k, v), "new")
+        d[k] = v
+        order.append(k)
+        r = rng.random()
+        if r < 0.25:
+            q = rng.choice(order)
+            emit("afind %d" % q, "found %d" % d[q])
+        elif r < 0.4:
+            q = rng.choice(order)
+            emit("afoi %d %d" % (q, rng.getrandbits(8)), "found %d" % d[q])
+        elif r < 0.5:
+            q = (rng.choice(order) + (rng.randrange(1, 9) << rng.randrange(0, 12))) & M64
+            if q not in d and q != invalid:
+                emit("afind %d" % q, "absent")
+        elif r < 0.55:
+            emit("asize", str(len(d)))
+        elif r < 0.6:
+            emit("adump", None)
+    for k in order:
+        emit("afind %d" % k, "found %d" % d[k])
+    emit("asize", str(len(d)))
+    emit("adump", None)
+    meta = {"init": init, "keys": len(d), "style": style, "hash": kind, "c": c, "invalid0": invalid == 0, "items": sorted(d.items())}
+    return ops, oracle, meta
+
+
+def erase_pos(line):
+    """Drop the slot position from a harness answer (the map view of the oracle has none)."""
+    w = line.split()
+    if not w:
+        return line
+    if w[0] in ("ok", "new") and len(w) == 2:
+        return w[0]
+    if w[0] == "found" and len(w) == 3:
+        return "found " + w[2]
+    return line
+
+
+def dump_items(line):
+    """'N entries p:k:v …' -> (N, entries, [(p,k,v)])"""
+    w = line.split()
+    cells = [tuple(int(x) for x in c.split(":")) for c in w[2:]]
+    return int(w[0]), int(w[1]), cells
+
+
+def probing_stream(ctx, hexe, dexe, n_cases):
+    found = False
+    for ci in range(n_cases):
+        auto = ctx.rng.random() < 0.4
+        ops, oracle, meta = (gen_probing_auto if auto else gen_probing_fixed)(ctx.rng)
+        # exceeding capacity must raise, not loop: hard timeout on the real code
+        rc1, o1, e1 = stream.run_lines(hexe, ops, timeout=60)
+        rc2, o2, e2 = stream.run_lines(dexe, ops, timeout=120)
+        tag = "probing.auto" if auto else "probing.fixed"
+        # non-trivial: some entry sits away from its ideal bucket (a collision was resolved)
+        displaced = wrapped = False
+        last_dump = None
+        for i, (idx, want) in enumerate(oracle):
+            if ops[idx] in ("pdump", "adump") and idx < len(o1):
+                last_dump = o1[idx]
+        if last_dump and rc1 == 0:
+            try:
+                N, _, cells = dump_items(last_dump)
+                occ = {p for p, _, _ in cells}
+                for p_, k_, _ in cells:
+                    idl = py_hash(meta["hash"], meta["c"], k_) % N
+                    if idl != p_:
+                        displaced = True
+                    if idl > p_:
+                        wrapped = True
+            except Exception:
+                pass
+        ctx.count((tag, tuple(ops)), nontrivial=meta["keys"] >= 3 and displaced)
+        ctx.hist(tag + ".keys", min(meta["keys"], 50) // 5 * 5)
+        ctx.hist("probing.wrapped_cluster", wrapped)
+        ctx.hist("probing.hash", meta["hash"])
+        ctx.hist("probing.invalid_is_zero", meta["invalid0"])
+        if not auto:
+            ctx.hist("probing.mod", meta["mod"])
+            ctx.hist("probing.plan", meta["plan"])
+            ctx.hist("probing.doublings", meta["doublings"])
+            ctx.hist("probing.capacity_exceptions", min(meta["fulls"], 3))
+        if ci < 2:
+            ctx.sample({"stream": tag, "ops": ops[:14], "impl": o1[:14]})
+        if rc1 != 0:
+            what = ("probing table loops instead of raising / terminating (timeout)" if rc1 == "timeout"
+                    else "harness died on probing script (rc=%s): %s" % (rc1, e1[-400:]))
+            small = stream.ddmin(ops, lambda l: stream.run_lines(hexe, l, timeout=10)[0] != 0, keep_prefix=1, max_tests=60)
+            ctx.violation(what, {"stream": tag, "ops": small, "stderr": e1[-2000:]})
+            found = True
+            continue
+        # property oracle: a Python dict with a capacity counter (independent of the Lean model)
+        bad = None
+        for idx, want in oracle:
+            got = o1[idx] if idx < len(o1) else None
+            if got is None:
+                bad = (idx, want, got); break
+            if ops[idx] in ("pdump",):
+                try:
+                    N, ent, cells = dump_items(got)
+                    norm = "%d %d %s" % (N, ent, " ".join("%d:%d" % (k, v) for k, v in sorted((k, v) for _, k, v in cells)))
+                    if len({p for p, _, _ in cells}) != len(cells):
+                        norm += " DUP-POS"
+                except Exception:
+                    norm = got
+                if norm != want:
+                    bad = (idx, want, got); break
+            elif ops[idx] == "adump":
+                N, ent, cells = dump_items(got)
+                items = sorted((k, v) for _, k, v in cells)
+                # the content is exactly the keys inserted so far (prefix of meta["items"] in insertion order is not
+                # known here; compare at the final dump only), the bucket count a power of two above the size
+                if N & (N - 1) or N <= len(cells) or ent != len(cells):
+                    bad = (idx, "power-of-two buckets > entries", got); break
+                if idx == len(ops) - 1 and items != meta["items"]:
+                    bad = (idx, "content = inserted keys", got); break
+            elif want is None:
+                continue
+            elif erase_pos(got) != want:
+                bad = (idx, want, got); break
+        if bad:
+            idx, want, got = bad
+
+            def still(l):
+                # shrink: the same op (last line) still answers differently from `want` is not decidable without the
+                # oracle; keep the prefix minimal w.r.t. the harness/model disagreement instead when there is one
+                return False
+            ctx.violation("probing table answers %r where the map-with-capacity oracle says %r (op %r)" % (got, want, ops[idx]),
+                          {"stream": tag, "ops": ops[:idx + 1], "op_index": idx, "impl": got, "expected": want})
+            found = True
+        d = stream.first_diff(o1, o2)
+        if d is not None or rc2 != 0:
+            small = stream.ddmin(ops, lambda l: stream.disagree(hexe, dexe, l, timeout=20), keep_prefix=1, max_tests=120)
+            ctx.violation("model and implementation disagree on a probing-table operation (answer or exact slot layout)",
+                          {"stream": tag, "ops": small, "first_diff": d,
+                           "impl": o1[d] if d is not None and d < len(o1) else None,
+                           "model": o2[d] if d is not None and d < len(o2) else None},
+                          no_input=not found)
+            found = True
+    return found
+
+
 def run(ctx):
     problems, consts = flow.proof_phase(ctx, "C20", required=REQUIRED, drivers=["drv_C20"])
     ok, hexe, lg = repo.harness("c20.cc", extra=[REPO + "/util/bit_packing.cc", REPO + "/util/exception.cc",
-                                                 REPO + "/util/integer_to_string.cc"])
+                                                 REPO + "/util/integer_to_string.cc", REPO + "/util/mmap.cc",
+                                                 REPO + "/util/file.cc", REPO + "/util/scoped.cc",
+                                                 REPO + "/util/parallel_read.cc", REPO + "/util/spaces.cc",
+                                                 REPO + "/util/string_piece.cc"])
     if not ok:
         problems.append(lg)
         flow.report_obligation_failures(ctx, problems, False)
@@ -240,6 +558,7 @@ def run(ctx):
     n = 150 if ctx.tier == "quick" else 4000
     found = bits_stream(ctx, hexe, dexe, n)
     found = search_stream(ctx, hexe, dexe, n) or found
+    found = probing_stream(ctx, hexe, dexe, 300 if ctx.tier == "quick" else 6000) or found
     ctx.cov["rule"] = ("bits: seeded scripts over buffers of 8..96 bytes with disjoint zero fields (widths 1..57 / 1..25 / "
                        "float32 / float31) among all-ones, random or zero neighbours, every bit offset mod 8; a case is "
                        "non-trivial when it has >= 2 fields; distinct by op script")
